@@ -9,6 +9,7 @@ import json, os, shutil, subprocess, sys, time
 ROOT = os.path.dirname(os.path.dirname(os.path.abspath(__file__)))
 args = [a for a in sys.argv[1:] if not a.startswith("--")]
 skip_tests = "--skip-tests" in sys.argv
+in_worktree = "--in-worktree" in sys.argv   # run the checks against the worktree (VERIF_REPO) instead of patching /repo
 wt, sid, prop, *checks = args
 env = dict(os.environ, PYTHONPATH=wt, PYTHONDONTWRITEBYTECODE="1")
 
@@ -50,13 +51,24 @@ if not skip_tests:
     print("tests:", meta["tests_with_change"], f"({time.time()-t:.0f}s)")
 ok = meta["demo_with_change_exit"] != 0 and meta["demo_without_change_exit"] == 0 and (" passed" in meta.get("tests_with_change", "") and "failed" not in meta.get("tests_with_change", ""))
 meta["qualifies"] = ok
-# run checks against /repo with the patch applied
-sh(f"git -C /repo apply {patch}")
+# run checks against /repo with the patch applied (or, with --in-worktree, against the worktree itself, which must be
+# at /repo's HEAD plus the change - used while background runs need an unmodified /repo)
 results = {}
+cenv = dict(os.environ)
+if in_worktree:
+    head_repo = sh("git -C /repo rev-parse HEAD").stdout.strip()
+    head_wt = sh("git rev-parse HEAD", cwd=wt).stdout.strip()
+    if head_repo != head_wt:
+        print("worktree is not at /repo's HEAD:", head_wt[:8], "vs", head_repo[:8]); sys.exit(1)
+    cenv["VERIF_REPO"] = wt
+    meta["evaluated_in"] = "worktree (VERIF_REPO)"
+else:
+    sh(f"git -C /repo apply {patch}")
+    meta["evaluated_in"] = "/repo (patch applied, then reverted)"
 try:
     for c in checks:
         t = time.time()
-        r = sh(f"./check {c}", cwd=ROOT)
+        r = sh(f"./check {c}", cwd=ROOT, env=cenv)
         v = [l for l in r.stdout.splitlines() if l.startswith("VIOLATION")]
         sigs = [l.strip()[11:] for l in r.stdout.splitlines() if l.strip().startswith("signature:")]
         results[c] = {"exit": r.returncode, "violations": len(v), "signatures": sigs[:5], "wall_s": round(time.time() - t)}
@@ -64,8 +76,9 @@ try:
         if r.returncode not in (0, 1):
             print(r.stderr[-800:])
 finally:
-    sh("git -C /repo checkout -- .")
-    print(sh("git -C /repo status --short").stdout)
+    if not in_worktree:
+        sh("git -C /repo checkout -- .")
+        print(sh("git -C /repo status --short").stdout)
 meta["check_results"] = results
 meta["detected_by"] = [c for c, v in results.items() if v["exit"] == 1]
 out = os.path.join(ROOT, "seeded", sid)
